@@ -753,3 +753,121 @@ func c12SearchOnSorted(c *Ctx) {
 		c.Unresolved("C12.R9", "sort.Search call sites in the update paths")
 	}
 }
+
+// c12AppendLastWins (R10): appending a host that is already known updates it.
+// AppendClusterHosts merges the appended host configs with the current host set and lets NewHostSet de-duplicate by
+// address. hostSet.setFinalHost keeps the *first* occurrence of an address, so "the last update wins" holds only if the
+// merged list starts with the appended hosts: an append for a known address with a new weight / metadata is otherwise
+// dropped silently - in the live set and, through refreshHostsConfig, in the stored configuration. Clause: (a) setFinalHost
+// skips an address it has already seen (first occurrence wins); (b) in AppendSimpleHostHandler every append of a host built
+// from the handler's hostConfigs happens before the existing hosts are appended (the Range over the snapshot's host set),
+// and none after it.
+func c12AppendLastWins(c *Ctx) {
+	pkg := "pkg/upstream/cluster"
+	// (a) first occurrence wins
+	firstWins := false
+	for _, fn := range c.PkgFuncs(pkg) {
+		if !strings.Contains(fn.String(), "setFinalHost") {
+			continue
+		}
+		forEachInstr(fn, true, func(f *ssa.Function, in ssa.Instruction) {
+			lk, ok := in.(*ssa.Lookup)
+			if !ok || !lk.CommaOk {
+				return
+			}
+			for _, r := range refs(lk) {
+				ex, isE := r.(*ssa.Extract)
+				if !isE || ex.Index != 1 {
+					continue
+				}
+				for _, rr := range refs(ex) {
+					ifi, isIf := rr.(*ssa.If)
+					if !isIf {
+						continue
+					}
+					// on the "seen" edge no append to the result happens before the loop continues
+					seenBlk := ifi.Block().Succs[0]
+					hasAppend := false
+					for _, x := range seenBlk.Instrs {
+						if call, isC := x.(*ssa.Call); isC {
+							if b, isB := call.Common().Value.(*ssa.Builtin); isB && b.Name() == "append" {
+								hasAppend = true
+							}
+						}
+					}
+					if !hasAppend {
+						firstWins = true
+					}
+				}
+			}
+		})
+	}
+	h := c.F(pkg, "AppendSimpleHostHandler")
+	if h == nil {
+		c.Unresolved("C12.R10", "AppendSimpleHostHandler")
+		return
+	}
+	c.Check("C12.R10", "pkg/upstream/cluster.hostSet.setFinalHost:first-occurrence-wins", h.Pos(), firstWins, "an address already seen is skipped", "hostSet.setFinalHost no longer keeps the first occurrence of an address: the order AppendSimpleHostHandler relies on (appended hosts first) does not make the last update win any more")
+	// (b)
+	var newAppends []ssa.Instruction
+	forEachInstr(h, false, func(_ *ssa.Function, in ssa.Instruction) {
+		call, ok := in.(*ssa.Call)
+		if !ok {
+			return
+		}
+		if b, isB := call.Common().Value.(*ssa.Builtin); !isB || b.Name() != "append" || len(call.Common().Args) < 2 {
+			return
+		}
+		// the appended element is NewSimpleHost(hc, ...)
+		found := false
+		var walk func(v ssa.Value, d int)
+		walk = func(v ssa.Value, d int) {
+			if d > 6 || v == nil || found {
+				return
+			}
+			switch x := v.(type) {
+			case *ssa.Call:
+				if cal := x.Common().StaticCallee(); cal != nil && cal.Name() == "NewSimpleHost" {
+					found = true
+				}
+			case *ssa.Slice:
+				walk(x.X, d+1)
+			case *ssa.Alloc:
+				for _, r := range refs(x) {
+					if ia, ok := r.(*ssa.IndexAddr); ok {
+						for _, rr := range refs(ia) {
+							if st, ok := rr.(*ssa.Store); ok {
+								walk(st.Val, d+1)
+							}
+						}
+					}
+				}
+			case *ssa.MakeInterface:
+				walk(x.X, d+1)
+			case *ssa.ChangeInterface:
+				walk(x.X, d+1)
+			}
+		}
+		walk(call.Common().Args[1], 0)
+		if found {
+			newAppends = append(newAppends, in)
+		}
+	})
+	ranges := callsIn(h, false, func(cc *ssa.CallCommon) bool { return cc.IsInvoke() && cc.Method.Name() == "Range" })
+	if len(newAppends) == 0 || len(ranges) != 1 {
+		c.Fail("C12.R10", funcKey(h)+":appended-before-existing", h.Pos(), fmt.Sprintf("expected appends of NewSimpleHost(...) and one Range over the existing hosts in AppendSimpleHostHandler, found %d/%d", len(newAppends), len(ranges)))
+		return
+	}
+	rg := ranges[0].Instr
+	ok := true
+	for _, a := range newAppends {
+		a := a
+		if existsPath(h, rg, func(x ssa.Instruction) bool { return x == a }, nil) != nil {
+			ok = false
+		}
+		if existsPath(h, a, func(x ssa.Instruction) bool { return x == rg }, nil) == nil {
+			ok = false
+		}
+	}
+	c.Check("C12.R10", funcKey(h)+":appended-before-existing", rg.Pos(), ok, "the appended hosts come first in the merged list", "AppendSimpleHostHandler puts the existing hosts in front of the appended ones: NewHostSet keeps the first occurrence of an address, so an append for an address that is already known (new weight, metadata, TLS flag) is silently dropped - the live host set and the stored configuration keep the superseded attributes although the last update should win")
+}
